@@ -218,9 +218,9 @@ def _is_listener_or_io(n) -> bool:
 
 def check_close_sequence(ctx):
     repo = ctx.repo
-    for cname, mname, closer, run_flag in (
-        ("TcpConnection", "__receiver_thread", "self._socket.close", "self._thread_running"),
-        ("SerialConnection", "_receiver_thread_function", "self._port.close", "self._receiver_thread_running"),
+    for cname, mname, closer, run_flag, stop_flag in (
+        ("TcpConnection", "__receiver_thread", "self._socket.close", "self._thread_running", "self._stop_thread"),
+        ("SerialConnection", "_receiver_thread_function", "self._port.close", "self._receiver_thread_running", "self._stop_receiver_thread"),
     ):
         f = repo.method(cname, mname, inherited=False)
         ctx.touch(f)
@@ -256,10 +256,12 @@ def check_close_sequence(ctx):
             if isinstance(n.ast, ast.Assign) and isinstance(n.ast.value, ast.Constant) and n.ast.value.value is False:
                 for t in n.ast.targets:
                     resets.setdefault(dotted(t), []).append(n)
-        for flag in (run_flag, "self._connected"):
+        for flag in (run_flag, "self._connected", stop_flag):
             ns = resets.get(flag, [])
             ok = bool(ns) and not cfg.path_exists(cfg.entry, cfg.exit, avoid=ns) and any(cfg.path_exists(d2[0], n) for n in ns)
-            ctx.ob("C09.P2", q, ok, f"{flag} is reset after on_disconnected on every path" if ok else f"{flag} is not reset on every path after on_disconnected", key="reset " + flag, where=f.where)
+            ctx.ob("C09.P2", q, ok, f"{flag} is reset after on_disconnected on every path" if ok else
+                   f"{flag} is not reset on every path after on_disconnected" + (": after a close initiated by the peer the read loop of the next connection sees the stale stop request and tears the new connection down at once" if flag == stop_flag else ""),
+                   key="reset " + flag, where=f.where)
         sets_running = [n for n in cfg.real_nodes() if isinstance(n.ast, ast.Assign) and any(dotted(t) == run_flag for t in n.ast.targets) and isinstance(n.ast.value, ast.Constant) and n.ast.value.value is True]
         ok = bool(sets_running) and cfg.dominates(sets_running[0], loops[0])
         ctx.ob("C09.P2", q, ok, f"{run_flag} is raised before the read loop" if ok else f"{run_flag} is not raised before the read loop", key="running-set", where=f.where)
